@@ -36,4 +36,13 @@ def orderRt : List (Instr R W D ⊕ RtI) → Nat → List N
 def sessOrderS (f : List Step) : List N :=
   (names f).filter (fun n => n == .guard_read || n == .delta_builder || n == .updater_begin)
 
+/-- the drop of a session in the vocabulary of the field list: `rtDrop` = the drops of the two fields that own read
+transactions (`merkle_updater`, `rollback_delta`: their relative order is immaterial to the LTS, both are gone after
+`rtDrop`), `aReadUnlock` = the drop of `access_guard` -/
+def dropOrder : List (Instr R W D ⊕ RtI) → List N
+  | [] => []
+  | .inr (.rtDrop _) :: l => .field_updater :: .field_delta :: dropOrder l
+  | .inl (.aReadUnlock _) :: l => .field_guard :: dropOrder l
+  | _ :: l => dropOrder l
+
 end Nomt.Locks3
